@@ -79,6 +79,23 @@ SEEDS = (
     "register q[2]\nmacro m a b { loop a { X b } }\nprepare_all\nm 1 q[0]\nmeasure_all\n",
 )
 
+# module-name family: `from <name> usepulses *` for every name over these characters that is one token
+MODCHARS = ".av1_"
+FIXTURE_NAMES = ("vpulses", ".vpulses", "nopulses", ".nopulses", "vpulses.x", ".vpulses.x")
+_IDENT = re.compile(r"[a-zA-Z_](\.?[a-zA-Z0-9_])*\Z")  # the lexer's IDENTIFIER
+_DOTIDENT = re.compile(r"\.([a-zA-Z_](\.?[a-zA-Z0-9_])*)?\Z")  # the lexer's DOTIDENTIFIER (may be a lone dot)
+
+
+def module_names(maxlen):
+    """every string over MODCHARS up to maxlen that lexes as one (DOT)IDENTIFIER, then the fixture names"""
+    for k in range(1, maxlen + 1):
+        for p in itertools.product(MODCHARS, repeat=k):
+            name = "".join(p)
+            if _IDENT.match(name) or _DOTIDENT.match(name):
+                yield name
+    yield from FIXTURE_NAMES
+
+
 EPS = ("parse", "header", "auto", "run", "runstr")
 BUDGET = 300000  # a normal call uses < 2000 steps
 MAXQ = 5  # emulation is only asked of circuits with at most this many qubits (cost 2^n per gate)
@@ -165,6 +182,16 @@ def observe(ep, text):
     """-> (label, state key, result or None, [(clause, detail)])"""
     fails = []
     try:
+        return _observe(ep, text, fails)
+    finally:
+        if "" in sys.modules:
+            # removed again so that the verdict on the next text does not depend on this one
+            del sys.modules[""]
+            fails.append(("sys-modules-empty-key", "%s left an entry with the empty string as key in sys.modules" % ep))
+
+
+def _observe(ep, text, fails):
+    try:
         with fuel(BUDGET):
             res = _invoke(ep, text)
     except impl.JaqalParseError as e:
@@ -219,7 +246,7 @@ def pipeline(text, only=None):
                 key = ("OK", "<not generable>")
         yield "header", label, key, fails
     uses = "usepulses" in text
-    if uses and only in (None, "auto", "runstr"):
+    if uses and only in (None, "auto"):
         label, key, auto, fails = observe("auto", text)
         if auto is not None:
             key = ("OK", len(auto.native_gates))
@@ -231,7 +258,7 @@ def pipeline(text, only=None):
             if res is not None:
                 key = ("RAN", len(res.subcircuits))
             yield "run", label, key, fails
-        if want("runstr") and (auto is not None or not uses):
+        if want("runstr"):
             label, key, res, fails = observe("runstr", text)
             if res is not None:
                 key = ("RAN", len(res.subcircuits))
@@ -356,7 +383,8 @@ _BASE = {}
 
 
 def _spawn(args):
-    env = dict(os.environ, PYTHONHASHSEED="0")
+    # one BLAS thread: importing numpy with a thread pool costs ~1.5 CPU-s per fresh interpreter
+    env = dict(os.environ, PYTHONHASHSEED="0", OMP_NUM_THREADS="1", OPENBLAS_NUM_THREADS="1", MKL_NUM_THREADS="1")
     return subprocess.Popen(
         [sys.executable, os.path.join(drv.HERE, "c16_driver.py")] + list(args),
         stdin=subprocess.PIPE, stdout=subprocess.PIPE, stderr=subprocess.PIPE, env=env, cwd=drv.VERIF, text=True,
@@ -407,8 +435,12 @@ def precompute_baselines(calls):
             _BASE[c] = _collect(p)[0]
 
 
+def _sans_leak(o):
+    return {k: v for k, v in o.items() if k != "leak"}
+
+
 def _digest(o):
-    return json.dumps(o, sort_keys=True)
+    return json.dumps(_sans_leak(o), sort_keys=True)
 
 
 def _short(o):
@@ -429,7 +461,7 @@ def outcome_type_fault(call, o):
         return None
     if "ImportError" in names:
         ep, text = drv.CALLS[call]
-        if ep in ("auto", "runstr") and _names_missing_module(text):
+        if ep in ("auto", "autoinj", "runstr") and _names_missing_module(text):
             return None
         return "escape-ImportError"
     if o["exc"] == "OutOfFuel":
@@ -450,7 +482,7 @@ def _deviates(seq, call, observed_digest=None):
     """does some occurrence of `call` in the fresh history `seq` deviate from its baseline?"""
     outs = run_history(seq)
     for c, o in zip(seq, outs):
-        if c == call and o != baseline(c):
+        if c == call and _sans_leak(o) != _sans_leak(baseline(c)):
             return True
     return False
 
@@ -496,7 +528,9 @@ class C16(Check):
     nshards = 127  # prime: contexts, alphabet and call indices all spread over the shards
     rule = (
         "space 1: every string over the character alphabet up to the length bound, alone and after each seed "
-        "prefix, plus every single-character insertion/deletion/replacement in the seed programs, each through "
+        "prefix, plus every single-character insertion/deletion/replacement in the seed programs, plus "
+        "`from <name> usepulses *` (alone and before a register) for every one-token module name over . a v 1 _ up "
+        "to the name length bound and the fixture names, each through "
         "parse / header parse / autoload parse / emulation; non-trivial = the text gets past the syntax phase "
         "(accepted, or rejected by the builder with a non-syntax JaqalError), distinct by text. "
         "space 2: every call history up to the depth bound over the call alphabet; states = distinct "
@@ -517,6 +551,11 @@ class C16(Check):
         "non-termination is a semi-decision: %d steps of fuel" % (MAXQ, BUDGET),
         "outcomes of calls are compared as canonical result text or exception type, message and position, "
         "with memory addresses masked and numpy.random seeded before each call",
+        "after every call sys.modules must not contain the empty string as a key (the only process-global "
+        "residue that is checked directly; everything else is judged through the outcomes of later calls)",
+        "outside the bounds, observed to escape on the tree this was written against: a float literal that "
+        "overflows (1.0e999) as a macro argument -> OverflowError; integer literals of more than 4300 digits -> "
+        "ValueError; about 400 nested blocks -> RecursionError",
     )
 
     # ---- bounds / enumeration
@@ -529,6 +568,8 @@ class C16(Check):
             "extended_alphabet_max_length": 0 if q else 4,
             "contexts": len(CONTEXTS),
             "seed_programs": len(SEEDS),
+            "module_name_alphabet": len(MODCHARS),
+            "module_name_max_length": 3 if q else 4,
             "mutation_alphabet": 18 if q else 23,
             "call_alphabet": len(drv.ALPHABET) if q else len(drv.ALPHABET) + len(drv.EXTRA),
             "fresh_history_depth": 2,
@@ -564,6 +605,8 @@ class C16(Check):
             yield from self._ext_cases(0, 4)
         else:
             yield from self._ext_cases(1, 4)
+        for name in module_names(3 if q else 4):
+            yield ("mod", name)
         ma = 0 if q else 1
         for sid, seed in enumerate(SEEDS):
             for pos in range(len(seed) + 1):
@@ -590,7 +633,14 @@ class C16(Check):
     def selfcheck(self):
         assert set(drv.ALPHABET + drv.EXTRA) == set(drv.CALLS)
         for name, (ep, _text) in drv.CALLS.items():
-            assert ep in ("parse", "auto", "header", "sexpr", "emulate", "runstr"), name
+            assert ep in ("parse", "auto", "autoinj", "header", "sexpr", "emulate", "runstr"), name
+        # the module-name family must not name anything that really exists besides the fixture package
+        names = list(module_names(4))
+        assert "." in names and ".a" in names and "a.1" in names and "_" in names
+        assert not any(n in names for n in ("1", "a.", "..", ".1", "a..a", "1a"))
+        for top in sorted({n.lstrip(".").split(".")[0] for n in names} - {"", "vpulses"}):
+            if importlib.util.find_spec(top) is not None or os.path.exists(os.path.join(FIX, top)):
+                raise RuntimeError("module name %r of the enumerated family exists in this environment" % top)
         # the position oracle accepts and rejects what it should
         class _E:  # noqa: N801
             def __init__(self, line, column):
@@ -614,6 +664,8 @@ class C16(Check):
         if k == "mut":
             _k, sid, aid, pos = case
             return {"seed": SEEDS[sid], "position": pos, "alphabet": len(ALPHABETS[aid])}
+        if k == "mod":
+            return {"module_name": case[1]}
         if k == "hist":
             return {"history": [[c, drv.CALLS[c][0], drv.CALLS[c][1]] for c in case[1]]}
         if k == "tree":
@@ -663,6 +715,9 @@ class C16(Check):
         elif k == "mut":
             _k, sid, aid, pos = case
             judge_texts(self._mutants(SEEDS[sid], ALPHABETS[aid], pos), ctx, "seed")
+        elif k == "mod":
+            use = "from %s usepulses *\n" % case[1]
+            judge_texts((use, use + "register q[1]\n"), ctx, "mod")
         elif k == "hist":
             self._run_hist(case[1], ctx)
         elif k == "tree":
@@ -704,15 +759,22 @@ class C16(Check):
             ctx.trace()
             ctx.transition(1)
             b = baseline(c)
-            if o == b:
+            same = _sans_leak(o) == _sans_leak(b)  # the residue flag is reported once, as its own clause
+            if same:
                 ctx.outcome("history:%s" % ("returns" if "ok" in o else o["exc"]))
             else:
                 ctx.outcome("history:deviates-from-baseline")
                 dev.append((i, c, o))
+            if "leak" in o and ("leak", c) not in reported:
+                reported.add(("leak", c))
+                if "leak" in b:
+                    ctx.fail("sys-modules-empty-key", "after call %r %r alone in a fresh interpreter: %s" % (c, drv.CALLS[c], o["leak"]), case=("hist", (c,)))
+                elif route == "fresh" and not any("leak" in baseline(x) for x in seq):
+                    ctx.fail("sys-modules-empty-key", "after call %d of the history %r: %s" % (i + 1, list(seq), o["leak"]))
             t = outcome_type_fault(c, o)
             if t and (t, c, o["exc"]) not in reported:
                 reported.add((t, c, o["exc"]))
-                if o == b:  # the call alone already violates oracle 1
+                if same:  # the call alone already violates oracle 1
                     ctx.fail(t, "call %r %r alone in a fresh interpreter %s" % (c, drv.CALLS[c], _short(o)), case=("hist", (c,)))
                 elif route == "fresh":
                     ctx.fail(t, "call %r %r as call %d of the history %r %s" % (c, drv.CALLS[c], i + 1, list(seq), _short(o)))
@@ -778,6 +840,8 @@ def _count(tier):
             texts += sum(a ** k for k in range(case[4], case[5] + 1))
         elif case[0] == "mut":
             texts += 2 * len(ALPHABETS[case[2]])
+        elif case[0] == "mod":
+            texts += 2
     return dict(n), texts
 
 
